@@ -55,6 +55,8 @@ CORPORA = {
     "session": dict(kind="mutate", gen="session_cases", gen_all_files=True, base=["builder", "fields"],
                     quick=dict(count=300), thorough=dict(count=6000), profiles=DEV_REL, place="end"),
     "findbytes": dict(model="MC_FindBytes", quick=dict(SmallLen=7), thorough=dict(SmallLen=8), profiles=DEV_REL, place="both"),
+    "hsession": dict(kind="mutate", gen="hsession_cases", gen_all_files=True, base=["hbuilder", "hfields"],
+                     quick=dict(count=300), thorough=dict(count=5000), profiles=DEV_REL, place="end"),
     "load": dict(model="MC_Load", quick=dict(MaxT=72), thorough=dict(MaxT=160), profiles=DEV_REL, place="both"),
     "walk": dict(model="MC_Walk", quick=dict(MaxT=32), thorough=dict(MaxT=40), profiles=DEV_REL, place="both"),
 }
@@ -94,7 +96,7 @@ CHECKS = {
     "C07": dict(corpora=["ctor", "builder", "hbuilder", "session"],
                 rule="every public constructor of both crates x 2 byte-marked argument sets; variable-length kinds with content lengths 0..MaxContent; "
                      "constructors reached through the builders' setters as well"),
-    "C12": dict(corpora=["hbuilder", "hbgen"],
+    "C12": dict(corpora=["hbuilder", "hbgen", "hsession"],
                 rule="all 2^10 subsets of the header builder's slots x both architectures; all call sequences of length 2..MaxSeq over 3 slots x 2 contents"),
     "C16": dict(corpora=["boxed", "ctor"],
                 rule="new_boxed on all partitions of content of total length 0..MaxTotal into <= 3 slices x 3 header kinds (each also cloned); "
@@ -109,7 +111,7 @@ CHECKS = {
                 rule="all (length 0..MaxLen, magic right/one-bit-off/zero, checksum right/+1/-1/zero, both architectures) + null; "
                      "calc_checksum on 54 boundary (magic, arch, length) triples judged on 16-bit limbs; all 2^32 lengths x both architectures "
                      "(Multiboot2 magic; two more magics on a sub-grid) swept natively against the congruence the property states"),
-    "C11": dict(thorough_extra=["hmut"], corpora=["hfields", "hgetters", "hwalk"],
+    "C11": dict(thorough_extra=["hmut", "hsession"], corpora=["hfields", "hgetters", "hwalk"],
                 rule="every header-tag kind conformant x 2 fills x 2 positions x 2 architectures, every accessor; all tag sequences "
                      "<= MaxTags over 4 kinds; all lazily chosen walks"),
     "C13": dict(corpora=["find", "findbytes"],
